@@ -167,9 +167,11 @@ class LinearFilter(LinearFilterProperties):
           ):
       raise ValueError("Non-causal filter")
     if isinstance(self.denpoly[0], Stream): # Variable output gain
-      den = self.denpoly
-      inv_gain = 1 / den[0]
-      den[0] = 0
+      inv_gain = 1 / self.denpoly[0]
+      den = Poly(OrderedDict((power, value)
+                             for power, value in self.denpoly.terms()
+                             if power != 0),
+                 zero=self.denpoly.zero) # Keeps self.denpoly as it is
       den *= inv_gain.copy()
       den[0] = 1
       return ZFilter(self.numpoly * inv_gain, den)(seq, memory=memory,
